@@ -21,7 +21,8 @@
    No restriction trees, no regular expressions here. *)
 From Coq Require Import List NArith ZArith Bool Arith.
 Import ListNotations.
-From Verif Require Import Base.Val C01.Model_C01 C04.Model_C04 C44.Model_C44.
+From Verif Require Import Base.Val C01.Model_C01 C04.Model_C04.
+From Verif Require Import C44.Model_C44.
 From Verif Require C03.Model_C03.
 Local Open Scope N_scope.
 
@@ -140,6 +141,26 @@ Definition meaning_of (t : str) : option meaning := meaning_fuel (S (length t)) 
 Definition describes (t : str) (p : package) : bool :=
   match meaning_of t with Some m => means m p | None => false end.
 
+(* ------------------------------------------------------------------ the atom clause and its boundary *)
+(* a slot / sub-slot field that contains a star without being a lone star or a well-formed pattern
+   (the characters of [\w+-.] and single stars): the text is rejected *)
+Definition bad_tok (tok : str) : bool :=
+  mem c_star tok && negb (str_eqb tok [c_star]) && negb (valid_glob tok).
+Definition head_rejects (t : str) : bool :=
+  let q := split_query t in bad_tok (q_slot q) || bad_tok (q_sub q).
+(* the part of the text left of :slot / ::repo reads as an atom: it has a "/" and, if it contains a
+   star, it begins with a version operator *)
+Definition atom_shaped (t : str) : bool :=
+  let body := q_body (split_query t) in
+  mem c_slash body && (starts_op body || negb (mem c_star body)).
+(* the known class of the atom clause (finding atom-slotop-star-use-rejected): a valid atom text whose
+   slot field is rejected as a pattern — cat/pkg:*[flag] puts "*[flag]" there *)
+Definition atom_class (t : str) : bool :=
+  match Model_C03.parse_atom None false (strip t) with
+  | Model_C03.Ok _ => head_rejects t
+  | _ => false
+  end.
+
 (* package attributes are newline-free (names, slots) *)
 Definition no_nl (s : str) : bool := negb (mem c_nl s).
 Definition wf_pkg (p : package) : bool :=
@@ -165,6 +186,12 @@ Definition spec_case_ok (pool : list package) (t : str) (r : val) : bool :=
   | _ => false
   end.
 (* the model's own verdict on text acceptance is compared by (A); this is the blocker clause alone *)
+(* evaluated on every generated text: a valid (non-blocker) atom text reads as an atom *)
+Definition atom_unshaped (t : str) (_ : val) : bool :=
+  match Model_C03.parse_atom None false (strip t) with
+  | Model_C03.Ok _ => negb (mem c_bang t) && negb (head_rejects t) && negb (atom_shaped t)
+  | _ => false
+  end.
 Definition spec_blocker_ok (t : str) (r : val) : bool :=
   if mem c_bang t then match r with VErr _ => true | _ => false end else true.
 
